@@ -110,6 +110,11 @@ def c13():
     return tables.check_locks("C13", "htlc")
 
 
+@reg("C14")
+def c14():
+    return tables.check_tokens("C14")
+
+
 @reg("C15")
 def c15():
     return minthist.check("C15")
